@@ -19,6 +19,23 @@ from .values import (NONE, V, VBool, VChunks, VClass, VDict, VFunc, VInt, VModul
 
 pow2_f = z3.Function("pow2", z3.IntSort(), z3.IntSort())
 pyeq_f = z3.Function("pyeq", Val, Val, z3.BoolSort())
+ordlt_f = z3.Function("ord_lt", Val, Val, z3.BoolSort())      # `<` between untracked values (deterministic)
+
+
+def total_order_axioms():
+    """`<` on untracked values is a strict total order whose equality is `==` (bytes / int keys): contract option
+    total_order.  Stated as an assumption of the contracts that use it."""
+    a, b, c = z3.Consts("oa!0 ob!0 oc!0", Val)
+    lt, eq = ordlt_f, pyeq_f
+    return [
+        z3.ForAll([a], z3.And(z3.Not(lt(a, a)), eq(a, a)), patterns=[lt(a, a), eq(a, a)]),
+        z3.ForAll([a, b, c], z3.Implies(z3.And(lt(a, b), lt(b, c)), lt(a, c)), patterns=[z3.MultiPattern(lt(a, b), lt(b, c))]),
+        z3.ForAll([a, b], z3.Or(lt(a, b), lt(b, a), eq(a, b)), patterns=[lt(a, b), eq(a, b)]),
+        z3.ForAll([a, b], z3.Implies(eq(a, b), z3.And(z3.Not(lt(a, b)), z3.Not(lt(b, a)), eq(b, a))), patterns=[eq(a, b)]),
+        z3.ForAll([a, b, c], z3.Implies(z3.And(eq(a, b), lt(a, c)), lt(b, c)), patterns=[z3.MultiPattern(eq(a, b), lt(a, c))]),
+        z3.ForAll([a, b, c], z3.Implies(z3.And(eq(a, b), lt(c, a)), lt(c, b)), patterns=[z3.MultiPattern(eq(a, b), lt(c, a))]),
+        z3.ForAll([a, b, c], z3.Implies(z3.And(eq(a, b), eq(b, c)), eq(a, c)), patterns=[z3.MultiPattern(eq(a, b), eq(b, c))]),
+    ]
 none_val = z3.Const("None!val", Val)
 bor_f = z3.Function("bor", z3.IntSort(), z3.IntSort(), z3.IntSort())
 band_f = z3.Function("band", z3.IntSort(), z3.IntSort(), z3.IntSort())
@@ -72,8 +89,15 @@ def to_val(eng, v):
     if isinstance(v, VBool):
         return val_of_int(z3.If(v.t, 1, 0))
     if isinstance(v, VTuple):
-        f = z3.Function(f"val_of_tuple{len(v.items)}", *([Val] * len(v.items) + [Val]))
-        return f(*[to_val(eng, x) for x in v.items])
+        n = len(v.items)
+        f = z3.Function(f"val_of_tuple{n}", *([Val] * n + [Val]))
+        items = [to_val(eng, x) for x in v.items]
+        t = f(*items)
+        # projections of the injected tuple (ghost `field`) are its components; a tuple is not None
+        for i, it in enumerate(items):
+            eng.assume(field_f(i, n)(t) == it)
+        eng.assume(z3.Not(isnone_f(t)))
+        return t
     return fresh_val("inj")
 
 
@@ -425,10 +449,10 @@ def compare(eng, op, a, b, node):
         if isinstance(op, ast.GtE):
             return seq_lt(b, a, strict=False)
     if isinstance(a, VOpaque) or isinstance(b, VOpaque):
-        if not eng.spec:
-            # ordering of unknown objects may raise TypeError; treat as opaque predicate
-            pass
-        return fresh_bool("cmp")
+        # ordering of untracked values: an uninterpreted, deterministic relation (a TypeError is not modelled);
+        # a strict total order only under the contract option total_order
+        ta, tb = to_val(eng, a), to_val(eng, b)
+        return {ast.Lt: ordlt_f(ta, tb), ast.Gt: ordlt_f(tb, ta), ast.LtE: z3.Not(ordlt_f(tb, ta)), ast.GtE: z3.Not(ordlt_f(ta, tb))}[type(op)]
     raise OutOfSubset(node, f"comparison {type(op).__name__} on {a!r}, {b!r}")
 
 
@@ -1428,6 +1452,12 @@ def m_chunks_length(eng, args, kwargs, node, frame):
 # construction of class instances
 # ----------------------------------------------------------------------------------------------
 def construct(eng, cls: VClass, args, kwargs, node, frame):
+    cur0 = getattr(eng.vf, "current", None)
+    if cur0 is not None and eng.call_depth == 0 and not eng.spec:
+        ov = cur0.options.get("callee_contracts", {}).get(cls.name)
+        if ov is not None:
+            # construction replaced by an (abstract, trusted) contract: arguments are not bound to parameters
+            return eng.call_contract(C.lookup(*ov), [], {}, node, frame)
     if cls.name in MODELS:
         return call_model(eng, VFunc("model", name=cls.name), args, kwargs, node, frame)
     if eng.vf.hierarchy.is_subclass(cls.name, "BaseException"):
@@ -1594,7 +1624,9 @@ def call_method(eng, recv, r, name, args, kwargs, node, frame):
         if name == "index" or name == "count":
             return VInt(fresh_int("tuple_" + name))
     if isinstance(r, VFunc):
-        return eng.opaque_call(f"<method {name} of function>", args, node)
+        # os.path.<pure string function>: no effects, and no exception on str/bytes arguments (assumption, listed)
+        pure = name in ("basename", "dirname", "join", "splitext", "normpath") and getattr(r, "name", "") in ("os.path", "path", "posixpath")
+        return eng.opaque_call(f"<method {name} of function>", args, node, may_raise=not pure, havoc_args=not pure)
     raise OutOfSubset(node, f"method {name} on {r!r}")
 
 
@@ -1725,6 +1757,9 @@ def sm_split(eng, recv, r, args, kwargs, node):
         v.split_of = (r, z3.simplify(sep.at(z3.IntVal(0))))
         v.iter_opaque = True
         return v
+    if len(args) == 2 and not kwargs:
+        # split with maxsplit: an untracked list of byte strings (sound over-approximation: nothing known about it)
+        return eng.opaque_call("bytes.split(sep, maxsplit)", [], node, havoc_args=False)
     raise OutOfSubset(node, "bytes.split supported for a one-byte separator without maxsplit (iteration only)")
 
 
